@@ -106,6 +106,8 @@ def label(e):
         tag += "[%s]" % e["rw"]
     if c == "Derived":
         tag += "[%s after %s]" % (e["derive"], e["query"])
+    if c == "Compose":
+        return "Compose[%s]" % e["recipe"]
     if c == "KronAddedDiag":
         tag += "[%s]" % e["dk"]
     return tag + ("(" + ",".join(kids) + ")" if kids else "")
@@ -191,7 +193,31 @@ def build(e):
         raise ValueError(e["rw"])
     if c == "Derived":
         return derive(build(e["base"]), e)
+    if c == "KronDiag":
+        return O.KroneckerProductDiagLinearOperator(*[O.DiagLinearOperator(dv.clone()) for dv in e["dfs"]])
+    if c == "Compose":
+        return compose_eval(e["expr"], e["parts"], build, False)
     raise ValueError(c)
+
+
+def compose_eval(x, parts, leaf, is_dense):
+    """evaluate a composition expression: on operators through the PUBLIC arithmetic (+, *, add_jitter, add_diagonal; whatever class the
+    dispatch returns), or on dense matrices (the oracle)"""
+    k = x[0]
+    if k == "op":
+        return leaf(parts[x[1]])
+    a = compose_eval(x[1], parts, leaf, is_dense)
+    if k == "add":
+        return a + compose_eval(x[2], parts, leaf, is_dense)
+    if k == "mul":
+        return a * x[2]
+    n = a.shape[-1]
+    if k == "jitter":
+        return a + x[2] * torch.eye(n, dtype=F64) if is_dense else a.add_jitter(x[2])
+    if k == "add_diagonal":
+        dv = parts[x[2]]["d"]
+        return a + torch.diag_embed(dv) if is_dense else a.add_diagonal(dv.clone())
+    raise ValueError(k)
 
 
 def derive(op, e):
@@ -321,6 +347,10 @@ def dense(e):
         return f.mT @ f if e["upper"] else f @ f.mT
     if c == "Derived":
         return derive_dense(dense(e["base"]), e)
+    if c == "KronDiag":
+        return torch.diag_embed(kad_diag({"dk": "kdiag", "dfs": e["dfs"]}, None))
+    if c == "Compose":
+        return compose_eval(e["expr"], e["parts"], dense, True)
     raise ValueError(c)
 
 
@@ -618,6 +648,11 @@ def gen(rng, cls, n, kappa, obatch=(), **kw):
         up = kw["upper"]
         return {"cls": cls, "t": tri(rng, n, up, kappa, ob), "upper": up, "rw": kw["rw"],
                 "c": torch.tensor(rng.uniform(0.5, 3.0), dtype=F64), "d": posvec(rng, n, 0.5, 2.0, ob)}
+    if cls == "KronDiag":
+        return {"cls": cls, "dfs": [posvec(rng, m, 0.5, 2.0, ob) for m in kw["sizes"]]}
+    if cls == "Compose":
+        parts = [gen(rng, pc, pn, kappa, ob, **pkw) for pc, pkw, pn in kw["parts"]]
+        return {"cls": cls, "recipe": kw["recipe"], "expr": kw["expr"], "parts": parts}
     if cls == "Derived":
         base = gen(rng, kw["base"], n, kappa, ob, **kw.get("base_kw", {}))
         nn = size(base)
